@@ -430,9 +430,32 @@ func (u *Unit) havocGhostFor(s *State, callee *ssa.Function, args []Term) {
 		if known && !may[k] {
 			continue
 		}
+		if !known && !may[k] && !u.p.ghostHasSets(k) {
+			// unknown code can change a ghost only through the `sets` clause of some contract that fires while it
+			// runs; a ghost that no `sets` clause names (it is updated by this unit's set-at-call clauses or by the
+			// engine) keeps its value
+			continue
+		}
 		g := s.ghost[k]
 		s.ghost[k] = Term{S: u.fresh("hv.ghost", g.Sort).S, Sort: g.Sort}
 	}
+}
+
+// ghostHasSets: some contract has a `sets` clause for this ghost.
+func (p *Prog) ghostHasSets(name string) bool {
+	p.setsOnce.Do(func() {
+		p.setsGhosts = map[string]bool{}
+		for _, fc := range p.cs.Funcs {
+			for _, cl := range fc.Clauses {
+				if cl.Kind == "sets" {
+					if mm := setsNameRe.FindStringSubmatch(cl.Expr); mm != nil {
+						p.setsGhosts[mm[1]] = true
+					}
+				}
+			}
+		}
+	})
+	return p.setsGhosts[name] || strings.HasPrefix(name, "$seen")
 }
 
 // havocClosureCells: closures passed to unknown code may write their captured cells.
